@@ -92,6 +92,22 @@ protected:
     return traits::to_int_type(*this->gptr());
   }
 
+  // without put-back support nothing stays behind the get pointer once the get area has been
+  // used up (with a chunk size of 1 the buffer is unbuffered in effect: no unget ever succeeds)
+  int_type uflow() override
+  {
+    int_type const c = underflow();
+    if (traits::eq_int_type(c, traits::eof()))
+      return c;
+    this->gbump(1);
+    if (!putback_)
+    {
+      base_pos_ = logical_pos();
+      this->setg(this->gptr(), this->gptr(), this->egptr());
+    }
+    return c;
+  }
+
   // putback / unget: with putback(true) one character can always be put back (as with stringbuf
   // and filebuf: when the get area has nothing before gptr, it is re-seated one character
   // earlier); with putback(false) there is no put-back support beyond what the current get area
